@@ -322,6 +322,16 @@ Example rejects_bad_draw : forall s0, init_state e_std xs = Some s0 ->
   step_ok lt ops0 e_std s0 (EStep (SelTournament (0%nat, 3%nat) [0; 1; 3]) (RecBase Cross) (mkInd 9 0 8) []) = None.
 Proof. intros s0 H. inversion H; subst. vm_compute. reflexivity. Qed.
 
+(* layers of unequal sizes (a converged layer halved by set_allowed): an index
+   drawn for the size of the reference layer 1 (4) is not accepted for an
+   individual taken from the smaller layer 0 (2); indices below 2 are *)
+Definition uneq : population Z :=
+  [mkLayer [mkInd 1 0 5; mkInd 2 0 7] 2; mkLayer [mkInd 3 3 7; mkInd 4 3 1; mkInd 5 3 2; mkInd 6 3 9] 4].
+Example pickup_bound_is_the_sampled_layer :
+  alps_pickup uneq 1 Pmid (false, 3%nat) = None /\ alps_pickup uneq 1 Pmid (false, 1%nat) = Some (0, 1)%nat /\
+  alps_pickup uneq 1 Pmid (true, 3%nat) = Some (1, 3)%nat.
+Proof. repeat split; reflexivity. Qed.
+
 (* tuning: the blank environment is an admissible user input *)
 Example blank_admissible : user_wf env_blank = true /\ is_valid false env_blank = true.
 Proof. split; reflexivity. Qed.
